@@ -196,6 +196,8 @@ HARNESSES += _extra
 HARNESSES += [
     H('p_destructor_panic', 'C05', native_only=True, untagged='', ns_q=[1, 2, 3], ns_t=[1, 2, 3, 4]),
     H('p_callback_panic', 'C06', native_only=True, untagged='', ns_q=[1, 2, 3], ns_t=[1, 2, 3, 4]),
+    H('p_zst_huge', 'C19', native_only=True, untagged='', name='p_zst_huge_max', call='p_zst_huge::<{ usize::MAX }>()', ns_q=[0], ns_t=[0]),
+    H('p_zst_huge', 'C19', native_only=True, untagged='', name='p_zst_huge_half', call='p_zst_huge::<{ usize::MAX / 2 + 2 }>()', ns_q=[0], ns_t=[0]),
     H('p_documented_panic', 'C11', native_only=True, untagged='', ns_q=[0, 1, 2, 3], ns_t=[0, 1, 2, 3, 4]),
 ]
 for _n, _m in [(0, 2), (1, 3), (2, 2), (2, 4), (3, 5)]:
